@@ -1247,7 +1247,7 @@ class Engine:
         pseudo-random 'nice' values through the LINEAR path condition only (fast), the candidate is then checked
         numerically against the whole path condition and the negated obligation."""
         neg = extra[0] if len(extra) == 1 else z3.And(list(extra))
-        for sd in (seed, seed + 1000):
+        for sd in (seed, seed + 1000, seed + 2000, seed + 3000):
             m = self._generic_linear_model(sd)
             if m is None:
                 continue
@@ -1491,13 +1491,17 @@ class Engine:
                 nm = VARS.names[i]
                 if nm.startswith(('sqrt!', 'cos!', 'sin!')):
                     continue
-                if i in VARS.positive:
-                    val = Fraction(rnd.randint(2, 9), rnd.randint(2, 5))
-                else:
-                    val = Fraction(rnd.randint(-12, 12), rnd.randint(2, 7))
-                c = VARS.z3v[i] == z3.Q(val.numerator, val.denominator)
-                if str(self._timed(lambda: sL.check(c), 'branch_queries')) == 'sat':
-                    sL.add(c)
+                for attempt in range(5):
+                    if attempt >= 2:
+                        val = Fraction(rnd.randint(1, 31), 32)          # (parameters live in small intervals of [0, 1])
+                    elif i in VARS.positive:
+                        val = Fraction(rnd.randint(2, 9), rnd.randint(2, 5))
+                    else:
+                        val = Fraction(rnd.randint(-12, 12), rnd.randint(2, 7))
+                    c = VARS.z3v[i] == z3.Q(val.numerator, val.denominator)
+                    if str(self._timed(lambda: sL.check(c), 'branch_queries')) == 'sat':
+                        sL.add(c)
+                        break
             if sL.check() != z3.sat:
                 return None
             return sL.model()
